@@ -73,7 +73,7 @@ static int alg_dim(const vh_args_t *a) {
 /* ------------------------------------------------------------------ elim */
 enum { E_NAIVE, E_M4RI, E_PLUQ, E_HYBRID, E__M4RI, E_TOP, E_NOPS };
 
-static int force_vwide;   /* this case: a matrix wider than eight times the smallest L1 */
+static __thread int force_vwide;   /* this case: a matrix wider than eight times the smallest L1 */
 
 static void elim_case(const vh_args_t *a, int op) {
   int m = alg_dim(a), n = alg_dim(a);
